@@ -156,7 +156,7 @@ def gallina(src):
     text = '''(* generated by lib/vlib/srcset.py from /repo/src/set.rs on every run; do not edit *)
 From Coq Require Import List Arith Bool PeanoNat Lia.
 Import ListNotations.
-From Rsbdd Require Import Core.Bdd Core.Ops Sets.BddSet.
+From Rsbdd Require Import Core.Bdd Core.Ops Core.Sem Core.Canon Core.Pres Sets.BddSet.
 Definition src_categorize (e c : nat) : bool := %s.
 Definition src_insert (bits : nat) (self_b : bdd) (e : nat) : bdd := %s.
 Definition src_union (self_b other_b : bdd) : bdd := %s.
@@ -164,6 +164,11 @@ Definition src_intersect (self_b other_b : bdd) : bdd := %s.
 Definition src_complement (self_b other_b : bdd) : bdd := %s.
 Definition src_empty (self_b : bdd) : bdd := %s.
 Definition src_universe (self_b : bdd) : bdd := %s.
+Ltac shape := lazymatch goal with |- robdd ?x => change (shp 0 x) end;
+  repeat first [assumption | apply shp_band | apply shp_bor | apply shp_bnot | apply shp_bconst].
+Ltac sem := intros s; rewrite ?band_sem, ?bor_sem, ?bnot_sem;
+  repeat match goal with |- context [beval s ?x] => generalize (beval s x); intro end;
+  repeat match goal with v : bool |- _ => destruct v end; reflexivity.
 Lemma low_bit x : Nat.land x 1 = x mod 2.
 Proof. change 1 with (Nat.ones 1). rewrite Nat.land_ones. reflexivity. Qed.
 Lemma src_categorize_ok : forall e c, src_categorize e c = categorize e c.
@@ -186,14 +191,14 @@ Proof.
   - apply map_ext. intros i. unfold lit. rewrite src_categorize_ok. reflexivity.
 Qed.
 Print Assumptions src_insert_ok.
-Lemma src_union_ok : forall a b, src_union a b = s_union a b.
-Proof. reflexivity. Qed.
+Lemma src_union_ok : forall a b, robdd a -> robdd b -> src_union a b = s_union a b.
+Proof. intros a b Ha Hb. first [reflexivity | unfold src_union, s_union; cbv zeta; match goal with |- ?l = ?r => assert (Hl : robdd l) by shape; assert (Hr : robdd r) by shape; apply (proj2 (robdd_canonical l r Hl Hr)); unfold equiv; sem end]. Qed.
 Print Assumptions src_union_ok.
-Lemma src_intersect_ok : forall a b, src_intersect a b = s_intersect a b.
-Proof. reflexivity. Qed.
+Lemma src_intersect_ok : forall a b, robdd a -> robdd b -> src_intersect a b = s_intersect a b.
+Proof. intros a b Ha Hb. first [reflexivity | unfold src_intersect, s_intersect; cbv zeta; match goal with |- ?l = ?r => assert (Hl : robdd l) by shape; assert (Hr : robdd r) by shape; apply (proj2 (robdd_canonical l r Hl Hr)); unfold equiv; sem end]. Qed.
 Print Assumptions src_intersect_ok.
-Lemma src_complement_ok : forall a b, src_complement a b = s_complement a b.
-Proof. reflexivity. Qed.
+Lemma src_complement_ok : forall a b, robdd a -> robdd b -> src_complement a b = s_complement a b.
+Proof. intros a b Ha Hb. first [reflexivity | unfold src_complement, s_complement; cbv zeta; match goal with |- ?l = ?r => assert (Hl : robdd l) by shape; assert (Hr : robdd r) by shape; apply (proj2 (robdd_canonical l r Hl Hr)); unfold equiv; sem end]. Qed.
 Print Assumptions src_complement_ok.
 Lemma src_empty_ok : forall a, src_empty a = s_empty.
 Proof. reflexivity. Qed.
